@@ -11,8 +11,8 @@ from facts import AnalysisBroken, Explorer
 
 SINK_METHODS = ('decodeLastData', 'decodeLastDataNumField', 'decodeJson', 'setPollPriority', 'prepareMaster', 'storeLastData')
 HANDLERS = {
-    'ebusd::MainLoop::executeRead': 'levels',
-    'ebusd::MainLoop::executeWrite': 'levels',
+    'ebusd::MainLoop::executeRead': 1,     # index of the parameter carrying the caller's level list
+    'ebusd::MainLoop::executeWrite': 1,
 }
 SINK_FUNCS = {
     'ebusd::MqttHandler::notifyMqttTopic': 'this.m_levels',
@@ -183,8 +183,9 @@ def r1(ctx):
              minimum=8, star=True)
     fb = ctx.fb
     n = 0
-    for name, lv in sorted(HANDLERS.items()):
+    for name, lvi in sorted(HANDLERS.items()):
         fn = fb.fn(name)
+        lv = fn.P(lvi)
         n += track_function(ctx, 'C16.R1', fn, lv)
         # filtered lookups pass exactly the level parameter
         for c in fn.all('CXXMemberCallExpr'):
@@ -203,7 +204,7 @@ def r1(ctx):
                 [nid for nid, v in fn.nodes.items() if v['k'] == 'UnaryOperator' and v.get('op') == '++' and 'm_updatedMessages' in fn.key(nid)]
             for x in w:
                 atoms = set((a[0], a[1]) for a in fn.atoms(x))
-                ok = ('message.hasLevel(this.m_levels,#1)', True) in atoms
+                ok = ('%s.hasLevel(this.m_levels,#1)' % fn.P(0), True) in atoms
                 n += 1
                 ctx.ob('C16.R1', fn, x, ok, 'sink update registration', 'guarded by hasLevel(m_levels): %s' % ok)
         else:
@@ -219,6 +220,12 @@ def r1(ctx):
         raise AnalysisBroken('C16.R1: only %d instances' % n)
 
 
+def user_ptr(f):
+    """name of the single string* parameter (the connection's user) of a MainLoop method, or None"""
+    c = [p['name'] for p in f.params if (p.get('t') or '').replace('std::', '').replace('__cxx11::', '').replace('basic_string<char>', 'string').strip() in ('string *',)]
+    return c[0] if len(c) == 1 else None
+
+
 def r2(ctx):
     ctx.rule('C16.R2', 'the level list handed to the command handlers is getUserLevels(user) of the connection\'s user; the '
              'user is assigned only in executeAuth after checkSecret succeeded; in the HTTP handler a failed checkSecret sets '
@@ -231,14 +238,15 @@ def r2(ctx):
         v = f.nodes[c]
         a = f.key(v['args'][1])
         n += 1
-        ok = a in ('this.getUserLevels(*user)', 'this.getUserLevels(user)') or a.endswith('{this.getUserLevels(*user)}')
+        u = user_ptr(f)
+        ok = u is not None and (a in ('this.getUserLevels(*%s)' % u,) or a.endswith('{this.getUserLevels(*%s)}' % u))
         ctx.ob('C16.R2', f, c, ok, 'levels passed to %s' % v['callee'].split('::')[-1], 'argument %s' % a)
     # user assignment
     for f in fb.functions:
         if f.cls != 'ebusd::MainLoop':
             continue
         for nid, v in sorted(f.nodes.items()):
-            if v['k'] in ('CXXOperatorCallExpr',) and v.get('op') == '=' and v.get('args') and f.key(v['args'][0]) == '*user':
+            if v['k'] in ('CXXOperatorCallExpr',) and v.get('op') == '=' and v.get('args') and user_ptr(f) and f.key(v['args'][0]) == '*' + user_ptr(f):
                 n += 1
                 atoms = set((a[0], a[1]) for a in f.atoms(nid))
                 ok = f.name == 'ebusd::MainLoop::executeAuth' and any('checkSecret(' in k and p for k, p in atoms)
@@ -251,6 +259,10 @@ def r2(ctx):
     if not uses:
         raise AnalysisBroken('C16.R2: getUserLevels not used in executeGet')
     uname = g.key(g.nodes[uses[0]]['args'][0])
+    fmt = [c for c in g.all('CXXMemberCallExpr', 'CallExpr') if (g.nodes[c].get('callee') or '').endswith('formatHttpResult')]
+    if not fmt:
+        raise AnalysisBroken('C16.R2: formatHttpResult not called in executeGet')
+    rname = g.key(g.nodes[fmt[0]]['args'][0])
     bad = {}
     good = set()
     okv = 0
@@ -258,12 +270,12 @@ def r2(ctx):
     def on_elem(user, e, path):
         auth, ret = user
         v = g.nodes[e]
-        if v['k'] == 'BinaryOperator' and v.get('op') == '=' and g.key(v['lhs']) == 'ret':
+        if v['k'] == 'BinaryOperator' and v.get('op') == '=' and g.key(v['lhs']) == rname:
             x = g.val(v['rhs'])
             ret = 'ok' if x == okv else ('err' if x is not None and x < 0 else '?')
         elif v['k'] == 'DeclStmt':
             for dd in v.get('decls', []):
-                if dd['name'] == 'ret' and 'init' in dd:
+                if dd['name'] == rname and 'init' in dd:
                     x = g.val(dd['init'])
                     ret = 'ok' if x == okv else ('err' if x is not None and x < 0 else '?')
                 if dd['name'] == uname:
@@ -288,7 +300,7 @@ def r2(ctx):
                     auth = 'ok'
                 if 'checkSecret(%s,' % uname in k:
                     auth = 'ok' if p else 'bad'
-                if k == '(ret == #0)':
+                if k == '(%s == #0)' % rname:
                     if (p and ret == 'err') or (not p and ret == 'ok'):
                         return None
                     ret = 'ok' if p else ret
@@ -322,23 +334,41 @@ def r3(ctx):
     hit = None
     for r in rets:
         atoms = set((a[0], a[1]) for a in fn.atoms(r))
-        if any('checkLevels[' in k for k, p in atoms) or len(atoms) >= 2:
+        if any('%s[' % fn.P(1) in k for k, p in atoms) or len(atoms) >= 2:
             hit = r
+    lev, chk = fn.P(0), fn.P(1)
+    import re
+    # boundary tests are recognised by shape, whatever the locals are called: left (X == 0) or chk[X - 1] == ';',
+    # right (X + L == M) or chk[X + L] == ';' with the same X and L; M holds the list length, L the token length
+    keys = set()
+    for b_ in fn.blocks.values():
+        if b_.cond is not None and len(b_.succs) == 2:
+            for pol in (True, False):
+                for conj in facts.implied(fn, b_.cond, pol):
+                    for a_ in conj:
+                        keys.add(facts.atom_key(fn, a_)[0])
     ok_left = ok_right = False
-    if hit is not None:
-        ok_left = fn.needs_one_of(hit, [('(pos == #0)', True), ('(checkLevels[(pos - #1)] == #59)', True)])
-        ok_right = fn.needs_one_of(hit, [('((pos + len) == maxLen)', True), ('(checkLevels[(pos + len)] == #59)', True)])
+    pos = ln = None
+    for k in sorted(keys):
+        m = re.match(r'^\(%s\[\((\w+) \+ (\w+)\)\] == #59\)$' % re.escape(chk), k)
+        if m:
+            pos, ln = m.group(1), m.group(2)
+    lens = fn.local_where(lambda k, r: k in ('%s.length()' % lev, '%s.size()' % lev))
+    maxs = fn.local_where(lambda k, r: k in ('%s.length()' % chk, '%s.size()' % chk))
+    if hit is not None and pos is not None and ln in lens:
+        ok_left = fn.needs_one_of(hit, [('(%s == #0)' % pos, True), ('(%s[(%s - #1)] == #59)' % (chk, pos), True)])
+        ok_right = fn.needs_one_of(hit, [('((%s + %s) == %s)' % (pos, ln, mx), True) for mx in maxs + ['%s.length()' % chk, '%s.size()' % chk]] +
+                                   [('(%s[(%s + %s)] == #59)' % (chk, pos, ln), True)])
     ctx.ob('C16.R3', fn, hit if hit is not None else fn.body, ok_left and ok_right, 'token boundaries',
            'left boundary checked: %s, right boundary checked: %s' % (ok_left, ok_right))
-    adv = [nid for nid, d, rhs, op, lhs in fn.assignments() if d and d.endswith(':pos') and op == '+=' and rhs is not None and fn.key(rhs) == 'len']
-    ctx.ob('C16.R3', fn, adv[0] if adv else fn.body, bool(adv), 'search continues behind a rejected hit', 'pos += len present: %s' % bool(adv))
-    star = any(('(checkLevels == "*")', True) in set((a[0], a[1]) for a in fn.atoms(r)) for r in rets)
+    adv = [nid for nid, d, rhs, op, lhs in fn.assignments() if pos and d and d.endswith(':' + pos) and op == '+=' and rhs is not None and fn.key(rhs) == ln]
+    ctx.ob('C16.R3', fn, adv[0] if adv else fn.body, bool(adv), 'search continues behind a rejected hit', 'position += token length present: %s' % bool(adv))
+    star = any(('(%s == "*")' % chk, True) in set((a[0], a[1]) for a in fn.atoms(r)) for r in rets)
     ctx.ob('C16.R3', fn, fn.body, star, 'wildcard', '"*" matches only as the complete list: %s' % star, nontrivial=False)
     hl = fb.fn('ebusd::Message::hasLevel')
     ctx.touch(hl)
     rk = hl.key(hl.nodes[hl.all('ReturnStmt')[0]]['val'])
-    ok = rk == '(this.m_level.empty() ? (includeEmpty || levels.empty()) : ebusd::Message::checkLevel(this.m_level,levels))' or \
-        rk.startswith('(this.m_level.empty() ?') and 'checkLevel(this.m_level,levels)' in rk
+    ok = rk.startswith('(this.m_level.empty() ?') and 'checkLevel(this.m_level,%s)' % hl.P(0) in rk
     ctx.ob('C16.R3', hl, hl.body, ok, 'hasLevel', rk[:160])
 
 
